@@ -182,6 +182,19 @@ def known_replays(ctx, findings):
     import dbgcases as dc
     out = []
     for e in findings:
+        if e["id"] == "D51":
+            # the library call of the finding on the real interpreter: every cell and register a 16-bit word
+            import stdlibcases as sc
+            conv, f, stdin = e["call"]
+            bad = None
+            for fn, inp in ((f, stdin), ("getline", "a" + stdin)):
+                r = sc.run(sc.program(conv, fn, [], {k: k for k in range(1, 11)}), stdin=inp)
+                if "raise" in r:
+                    bad = "raised %s" % r["raise"]
+                else:
+                    bad = bad or wf_snapshot(snapshot_vm(r["vm"]))
+            out.append((e, bad is not None, bad))
+            continue
         if e["id"] != "D9":
             continue
         rs = dc.RealSession("SET(R1, 1)\nHALT()\n", {"big_stack": False, "init": [], "warn_return_on": True})
